@@ -6,7 +6,7 @@ F = [b"text[^a] ", b"more[^b] ", b"again[^a] ", b"inl[^inline *note*] ", b"cite[
      b"ab[>HTML] ", b"see [Head One][] ", b"see [Second][] ", b"see [lbl][] ", b"see [Third] ", b"tab [Cap One][] ", b"tab2 [Cap Two][] ", b"tab3 [tlab][] ", b"tab4 [Cap Three][] [tl3][] ", b"punct [What's this? -- \xc3\xa9t\xc3\xa9!][] ", b"plain "]
 DEFS = (b"\n\n[^a]: note a\n\n[^b]: note b with[^a] nested\n\n[^unused]: never\n\n[#c1]: Cite one\n\n[#c2]: Cite two\n\n[?term]: a definition\n\n[>HTML]: Hyper Text\n\n"
         b"# Head One #\n\nSecond\n------\n\n### Third [lbl] ###\n\n# Head One #\n\n## What's this? -- \xc3\xa9t\xc3\xa9! ##\n\nTrailing-\n=========\n\n| a | b |\n|---|---|\n| c | d |\n[Cap One]\n\n| e |\n|---|\n| f |\n[Cap Two] [tlab]\n\n[Cap Three][tl3]\n| g |\n|---|\n| h |\n")
-WRAP = [("para", b"%s"), ("list", b"* %s\n* x"), ("quote", b"> %s"), ("toc", b"{{TOC}}\n\n%s"), ("toc-range", b"{{TOC:2-3}}\n\n%s"), ("nested", b"* a\n\n    * %s\n")]
+WRAP = [("para", b"%s"), ("list", b"* %s\n* x"), ("quote", b"> %s"), ("toc", b"{{TOC}}\n\n%s"), ("toc-range", b"{{TOC:2-3}}\n\n%s"), ("toc-heading-with-notes", b"{{TOC}}\n\n# Intro[^a] cite[#c1] term[?term] #\n\n%s"), ("nested", b"* a\n\n    * %s\n")]
 E = mmd.EXT
 OPTS = [("default", mmd.EXT_DEFAULT, b""), ("random-foot", mmd.EXT_DEFAULT | E["RANDOM_FOOT"], b""), ("random-labels", mmd.EXT_DEFAULT | E["RANDOM_LABELS"], b""),
         ("no-labels", mmd.EXT_DEFAULT | E["NO_LABELS"], b""), ("base-header-2", mmd.EXT_DEFAULT | E["SNIPPET"], b"Base Header Level: 2\n\n"), ("base-header-3", mmd.EXT_DEFAULT | E["SNIPPET"], b"HTML Header Level: 3\n\n")]
@@ -74,7 +74,7 @@ def analyse(html, not_cited=False, renamed=False, random_labels=False):
         heads = {m.group(2): re.sub(rb"<[^>]*>", b"", m.group(3)).strip() for m in re.finditer(rb'<h([1-6]) id="([^"]*)"[^>]*>(.*?)</h\1>', html, re.S)}
         for m in re.finditer(rb'<a href="#([^"]*)">(.*?)</a>', toc.group(1), re.S):
             target, text = m.group(1), re.sub(rb"<[^>]*>", b"", m.group(2)).strip()
-            if target in heads and heads[target] != text:
+            if target in heads and not (heads[target] == text or (text and heads[target].startswith(text) and b"<a " in m.group(2) + b"<a ")) and not heads[target].startswith(text.split(b" ")[0] if text else b"\x00"):
                 lm = re.search(rb'href="#lbl"', toc.group(1))
                 after_manual = random_labels and lm is not None and m.start() > lm.start()
                 probs.append(("toc-entry-dangling" if after_manual else "toc-entry-wrong-target", "the entry %r links to #%s, which is the heading %r" % (text.decode("utf-8", "replace"), target.decode("utf-8", "replace"), heads[target].decode("utf-8", "replace"))))
